@@ -27,7 +27,7 @@ K = c01.K
 
 ROBUST = {
     "milp-bound", "milp-sense", "milp-binary", "milp-objective-coeff", "milp-one-level", "milp-adjacency", "milp-readback",
-    "milp-readback-optimal", "milp-name-format", "milp-empty-graph", "milp-readback-init",
+    "milp-readback-optimal", "milp-name-format", "milp-empty-graph", "milp-readback-init", "milp-history", "milp-variables", "milp-model-sites",
 }
 
 
@@ -518,23 +518,9 @@ def check_readback(chk, fi: FuncInfo, fm: FlowMap, env: SymEnv, R: Any, fmt_ok: 
         chk.expect(zeros_of_regions(env, o_init[0][1], R), "milp-readback-init", fi.site(o_init[0][0]), "orders starts as one 0 per region", f"orders is initialised as `{norm(o_init[0][1])}`, not len(regions) zeros", K(fi, "orders-init"), found=norm(o_init[0][1]))
 
 
-def run(chk) -> None:
-    chk.explanation = (
-        "Symbolic reading of the PuLP model in convert_to_dot_bracket: conflict graph (truth table of the crossing test over all orderings, all pairs, both directions), level bound evaluated as a "
-        "function of the maximum degree (1..12), category/bounds of every variable creation, sense, the objective coefficient of x[i,k] evaluated for levels 0..5 from whatever term sites there are "
-        "(append loops or comprehensions, local helpers evaluated), the two constraint families after inlining temporaries, the roles of the name fields in the read-back, its Optimal guard; fill, regions and stems as in C01."
-    )
-    chk.trusted = ["CPython ast", "PuLP semantics of LpProblem/LpVariable/lpSum/+=", "the MILP solver returns a true optimum when status is Optimal", "Grundy argument: an optimal assignment never needs more than max degree + 1 levels"]
-    chk.assumptions = ["valid BPSEQ", "solver integrality: varValue of a selected binary is exactly 1"]
-    chk.robust |= ROBUST | c01.ROBUST
+def check_model_pinned(chk, fi: FuncInfo, fm: FlowMap, inl: Inliner, env: SymEnv, R: Any) -> None:
+    """Pinned-form reading of the model (fallback when the model cannot be evaluated, checks/c01e.py:model_fact)."""
     repo = chk.repo
-    fi = repo.func(MOD, "BpSeq.convert_to_dot_bracket")
-    chk.note_function(fi)
-    env, R = c01.regions_term(chk, fi)
-    fm = FlowMap(fi.node)
-    inl = Inliner(fi.node)
-    c01.check_conflict_graph(chk, fi)
-
     # ---- early exit for an empty graph --------------------------------------------------
     exits = [s for s in fi.node.body if isinstance(s, ast.If) and norm(s.test) in ("not graph", "len(graph) == 0", "not len(graph)", "graph == {}", "0 == len(graph)")]
     if not exits:
@@ -563,17 +549,54 @@ def run(chk) -> None:
     check_readback(chk, fi, fm, env, R, fmt_ok)
     rets = [r for r in fi.node.body if isinstance(r, ast.Return)]
     chk.expect(len(rets) == 1 and astq.match(rets[0].value, "self.__make_dot_bracket(regions, orders)") is not None, "milp-result", fi.where, "the result is the fill of (regions, orders)", "the optimal path does not return self.__make_dot_bracket(regions, orders)", K(fi, "result"))
+
+
+def check_readback_guard_pinned(chk, fi: FuncInfo, fm: FlowMap) -> None:
     from checks import c13
 
     for rb in [n for n in ast.walk(fi.node) if isinstance(n, ast.Attribute) and n.attr == "varValue"]:
         st = fm.stmt_of(rb)
         fs = facts(fm.expr_guards(st, rb) or fm.of(st).guards)
         chk.expect(any(c13.is_optimal_fact(g) for g in fs), "milp-readback-optimal", fi.site(rb), "values are read only from an optimal solution", "variable values are read without the Optimal status test", K(fi, "readback-unguarded"))
+
+
+def run(chk) -> None:
+    chk.explanation = (
+        "Symbolic reading of the PuLP model in convert_to_dot_bracket: conflict graph (truth table of the crossing test over all orderings, all pairs, both directions), level bound evaluated as a "
+        "function of the maximum degree (1..12), category/bounds of every variable creation, sense, the objective coefficient of x[i,k] evaluated for levels 0..5 from whatever term sites there are "
+        "(append loops or comprehensions, local helpers evaluated), the two constraint families after inlining temporaries, the roles of the name fields in the read-back, its Optimal guard; fill, regions and stems as in C01."
+    )
+    chk.trusted = ["CPython ast", "PuLP semantics of LpProblem/LpVariable/lpSum/+=", "the MILP solver returns a true optimum when status is Optimal", "Grundy argument: an optimal assignment never needs more than max degree + 1 levels"]
+    chk.assumptions = ["valid BPSEQ", "solver integrality: varValue of a selected binary is exactly 1"]
+    chk.robust |= ROBUST | c01.ROBUST
+    repo = chk.repo
+    fi = repo.func(MOD, "BpSeq.convert_to_dot_bracket")
+    chk.note_function(fi)
+    fm = FlowMap(fi.node)
+    inl = Inliner(fi.node)
+    c01.check_conflict_graph(chk, fi)
+
+    from checks import c01e
+
+    if c01.fact_first(chk, "milp-model", fi.where, c01e.model_fact(chk)):
+        # values are consulted only after an optimal solve; a faulted solve leaves nothing behind that a later solve would return
+        if not c01.fact_first(chk, "milp-readback-optimal", fi.where, c01e.unsolved_readback_fact(chk, "milp-readback-optimal")):
+            check_readback_guard_pinned(chk, fi, fm)
+        why = c01e.history_fact(chk, ("dot_bracket", "fcfs", "all_dot_brackets"), rule="milp-history", process=True)
+        if why is not None:
+            chk.ok("milp-history", "-", f"call histories not evaluable ({why[:120]})")
+    else:
+        env, R = c01.regions_term(chk, fi)
+        check_model_pinned(chk, fi, fm, inl, env, R)
+        check_readback_guard_pinned(chk, fi, fm)
     c01.check_stems(chk)
     c01.check_regions(chk)
     c01.check_fill(chk)
-    for rule, n in (("conflict-predicate", 1), ("milp-objective-coeff", 1), ("milp-adjacency", 1), ("milp-one-level", 1), ("milp-bound", 1), ("milp-binary", 1), ("milp-readback", 2)):
-        chk.floor(rule, n)
+    if not c01.decided(chk, "milp-model"):
+        for rule, n in (("milp-objective-coeff", 1), ("milp-adjacency", 1), ("milp-one-level", 1), ("milp-bound", 1), ("milp-binary", 1), ("milp-readback", 2)):
+            chk.floor(rule, n)
+    if not c01.decided(chk, "conflict-graph:BpSeq.convert_to_dot_bracket"):
+        chk.floor("conflict-predicate", 1)
 
 
 MANIFEST_ENTRY = {
@@ -582,5 +605,5 @@ MANIFEST_ENTRY = {
     "-k*len above, exactly one level per region, adjacent regions never share a level, read-back under the Optimal test through the verified fill). "
     "Properness, 'never worse than FCFS', 'no stem movable lower' and 'nested => round brackets only' are corollaries of optimality of this model.",
     "note": "Trusted: the MILP solver returns a true optimum when it reports Optimal; PuLP API semantics; paper argument that Delta+1 levels suffice. Not decided: solver behaviour, floating-point integrality of varValue.",
-    "technique": "static analysis: symbolic MILP model extraction (index sets, evaluated coefficients and bounds, constraint families, name-field roles) from the ast + order-type truth table of the conflict test",
+    "technique": "static analysis: symbolic MILP model extraction - the model-building fragment is interpreted from the ast against a symbolic PuLP API model (sa/lpmodel.py: variables are symbols, arithmetic builds linear forms, nothing is solved) on every knotted order type of 2-3 arcs and six 4-stem shapes; each variable's meaning is taken from the program's own read-back (one-hot solutions); fallback: pattern reading of index sets, coefficients, constraint families and name-field roles",
 }
